@@ -245,6 +245,20 @@ inline std::vector<Program> fe_programs() {
     v.push_back(p);
   }
   {
+    // both threads start with two initial items; the SECOND of each pair
+    // creates two more when it commits.  A thread robbed of its first item
+    // (whole-queue steal across sockets, half steal within one) goes on
+    // pushing to the queue it was robbed from
+    Program p;
+    p.name  = "late-push";
+    p.ninit = 4;
+    p.items = {item({}, {}, {}, false, 0),     item({}, {}, {4, 5}, false, 0),
+               item({}, {}, {}, false, 0),     item({}, {}, {6, 7}, false, 0),
+               item({}, {}, {}, false, 1),     item({}, {}, {}, false, 1),
+               item({}, {}, {}, false, 1),     item({}, {}, {}, false, 1)};
+    v.push_back(p);
+  }
+  {
     Program p;
     p.name  = "tree";
     p.ninit = 2;
